@@ -6,7 +6,7 @@ from xdsl.dialects import builtin
 from xdsl.dialects.arith import AddiOp, ConstantOp, DivUIOp, MuliOp
 from xdsl.dialects.builtin import DYNAMIC_INDEX, FixedBitwidthType, IndexType
 from xdsl.dialects.memref import ExtractAlignedPointerAsIndexOp, SubviewOp
-from xdsl.ir import Attribute, Operation, OpResult
+from xdsl.ir import Attribute, Operation, OpResult, SSAValue
 from xdsl.parser import MemRefType
 from xdsl.passes import ModulePass
 from xdsl.pattern_rewriter import (
@@ -32,17 +32,22 @@ class LowerExtractAlignedPointerOp(RewritePattern):
         assert isa(source_type := subview.source.type, MemRefType[Attribute])
         if not isinstance(source_type.layout, TiledStridedLayoutAttr):
             return
-        dynamic_index_list = [
-            i for i, offset in enumerate(subview.static_offsets.get_values()) if offset == DYNAMIC_INDEX
-        ]
+        static_offsets = subview.static_offsets.get_values()
+        dynamic_index_list = [i for i, offset in enumerate(static_offsets) if offset == DYNAMIC_INDEX]
         ops_to_add: list[Operation] = []
+        # (offset, dimension) pairs: the dynamic offset operands and the non-zero static offsets
+        offsets: list[tuple[SSAValue | Operation, int]] = list(zip(subview.offsets, dynamic_index_list))
+        for index, static_offset in enumerate(static_offsets):
+            if static_offset != DYNAMIC_INDEX and static_offset != 0:
+                ops_to_add.append(constant_offset := ConstantOp.from_int_and_width(static_offset, IndexType()))
+                offsets.append((constant_offset, index))
         aligned_pointer = ExtractAlignedPointerAsIndexOp.get(subview.source)
         ops_to_add.append(aligned_pointer)
         element_type = source_type.get_element_type()
         assert isinstance(element_type, FixedBitwidthType)
         bytes_op = ConstantOp.from_int_and_width(element_type.size, IndexType())
         ops_to_add.append(bytes_op)
-        for offset, index in zip(subview.offsets, dynamic_index_list):
+        for offset, index in offsets:
             stride = source_type.layout.data.tstrides[index].strides[0].step
             assert stride is not None
             stride_op = ConstantOp.from_int_and_width(stride, IndexType())
@@ -54,7 +59,8 @@ class LowerExtractAlignedPointerOp(RewritePattern):
             offset_op = MuliOp(offset_div, stride_bytes_op)
             aligned_pointer = AddiOp(aligned_pointer, offset_op)
             ops_to_add.extend([stride_op, stride_bytes_op, bound_op, offset_div, offset_op, aligned_pointer])
-        rewriter.replace_op(op, ops_to_add)
+        # the new pointer is the result of the last addition (or the base pointer), not of the last op created
+        rewriter.replace_op(op, ops_to_add, [aligned_pointer.results[0]])
 
 
 class ConvertMemrefToArithPass(ModulePass):
